@@ -145,6 +145,10 @@ func replay(bh *behaviour, seed int64) (sig, what string, div *divergence, unrea
 				q = "what is the answer?"
 			}
 			toSend, err = c.Authenticate(q, []byte("secret-"+bh.Sec[s.P]))
+		case "query": // p's user sends the query again (re-keying): outside the property's scope, conformance only
+			faulted = true
+			w.net[peer(s.P)] = append(w.net[peer(s.P)], wire{b: []byte("?OTRv2?"), grp: &group{frags: [][]byte{[]byte("?OTRv2?")}}})
+			continue
 		case "drop":
 			faulted = true
 			w.net[s.P] = w.net[s.P][1:]
